@@ -837,7 +837,20 @@ def _store_histories(ctx, reqs, pending, only_idx=None):
 
 # ------------------------------------------------------------------ 7. the four strings through a written file
 PADDED = ['abc ', 'abc  ', ' abc', ' abc ', 'a b ', 'abc\x00', 'abc \x00', '1234567890123456 ', '123456789012345 ', 'urn:oid:1.2.3 ',
-          'http://x.org/a ', 'abc', 'x']
+          'http://x.org/a ', 'abc', 'x',
+          # white space other than the blank: stripped from the UR value of URNCodeValue only (rstrip()), kept elsewhere
+          'abc\t', 'abc\n', '12345678901234567\t', 'urn:oid:1.2\t', 'urn:oid:1.2\n', 'urn:oid:1.2\r\n', 'urn:oid:1.2\x0b', 'urn:oid:1.2\x1f',
+          'urn:oid:1.2\xa0', 'urn:oid:1.2\x85', 'urn:oid:1.2\x00', 'urn:oid:1.2\x00 ', 'urn:oid:1.2 \t ', 'http://x.org/a\t',
+          # outside ASCII: ISO 8859-1 survives the default repertoire, anything above code point 255 is written as '?'
+          'ab\u00e4', 'ab\u03a9', '\u03a9mega', 'urn:x:\u00e4', 'urn:x:\u4e2d']
+
+
+def _read_back_expected(kw, x):
+    """what a reader gets for the string x written into attribute kw without a SpecificCharacterSet"""
+    if x is None:
+        return None
+    t = x.encode('iso8859-1', 'replace').decode('iso8859-1')
+    return t.rstrip() if kw == 'URNCodeValue' else t.rstrip(' \x00')
 
 
 def _file_strings(ctx, reqs, pending):
@@ -847,7 +860,8 @@ def _file_strings(ctx, reqs, pending):
     r = ctx.rng('file-strings')
     combos = [(v, '99HDV', 'm', None) for v in PADDED]
     combos += [('abc', s, 'm', None) for s in ('99HDV ', ' 99HDV', '99HDV\x00')]
-    combos += [('abc', '99HDV', m, None) for m in ('two words ', ' lead', 'm\x00', 'm  ')]
+    combos += [('abc', '99HDV', m, None) for m in ('two words ', ' lead', 'm\x00', 'm  ', 'm\t', '\u03a9mega', 'caf\u00e9', '\u4e2d\u6587')]
+    combos += [('abc', s9, 'm', None) for s9 in ('99HDV\t', '99\u03a9')]
     combos += [('abc', '99HDV', 'm', ver) for ver in ('1.0 ', ' 1.0', '2\x00', '1.0')]
     for _ in range(ctx.n(10, 200)):
         combos.append((r.choice(PADDED), r.choice(['99HDV', '99HDV ', 'SCT']), r.choice(['m', 'm ', ' m']), r.choice([None, '1 ', '1'])))
@@ -867,14 +881,17 @@ def _file_strings(ctx, reqs, pending):
             buf.seek(0)
             back = pydicom.dcmread(buf, force=True).ConceptNameCodeSequence[0]
             st3, c2 = _try(CodedConcept.from_dataset, back)
-            padded = any(x is not None and x != x.rstrip(' \x00') for x in (v, sc, m, ver))
+            kw_v = [k for k in CODE_KWS if k in c][0]
+            want = (_read_back_expected(kw_v, v), _read_back_expected('CodingSchemeDesignator', sc), _read_back_expected('CodeMeaning', m),
+                    _read_back_expected('CodingSchemeVersion', ver))
+            padded = want != (v, sc, m, ver)
             ctx.case(sample=case if idx % 13 == 0 and not implicit else None, nontrivial_key=('file-strings', idx, implicit),
-                     path='file-strings', file_padded=padded)
+                     path='file-strings', file_padded=padded, file_non_ascii=any(ord(ch) > 127 for x in (v, sc, m, ver) if x for ch in x))
             if st3 != 'ok':
                 ctx.fail(case, f'from_dataset refused the code read from the file: {c2}', site='file-strings')
                 continue
-            # oracle: the reader drops trailing padding (blank, NUL) and nothing else; the attribute stays the same
-            want = tuple(None if x is None else x.rstrip(' \x00') for x in (v, sc, m, ver))
+            # oracle: characters outside ISO 8859-1 become '?', the reader drops trailing padding (blank, NUL; all white space for the
+            # UR value) and nothing else; the attribute stays the same
             stp, got = _try(lambda: (c2.value, c2.scheme_designator, c2.meaning, c2.scheme_version))
             same_attr = [k for k in CODE_KWS if k in c2] == [k for k in CODE_KWS if k in c]
             if stp != 'ok' or got != want or not same_attr:
